@@ -61,7 +61,7 @@ GUARD_TARGETS = ["c11_mesh.guard", "c11_pmap.guard", "c05_streams.guard"]
 PROPERTY_TARGETS = {
     "C17": ["c17_fence", "c17_asm", "c17_asm.race"],
     "C12": ["c12_domain"],
-    "C13": ["c13_scalar", "c13_app", "c13_app_neumann", "c13_q2", "c13_dg", "c13_blocked", "c13_stokes", "c13_tm", "c13_stokes_crrt", "c13_stokes_mg"],
+    "C13": ["c13_scalar", "c13_app", "c13_app_neumann", "c13_q2", "c13_dg", "c13_blocked", "c13_stokes", "c13_tm", "c13_stokes_crrt", "c13_stokes_mg", "c13_tm.race"],
     "C05": ["c05_streams", "c05_checkpoint", "c05_streams.guard", "c05_meta"],
     "C11": ["c11_mesh", "c11_pmap", "c11_mesh.guard", "c11_pmap.guard"],
     "SIMMPI": ["simmpi_selftest"],
@@ -172,7 +172,7 @@ def build(targets, flavours=("san",), jobs=16):
     rebuilt = 0
     with ThreadPoolExecutor(max_workers=jobs) as ex:
         def src_flags(fl, flags, s):
-            if fl == "race" and not s.startswith(os.path.join(VERIF, "sim") + os.sep):
+            if fl == "race" and not s.startswith(os.path.join(VERIF, "sim") + os.sep) and not s.startswith(os.path.join(VERIF, "simmpi") + os.sep):
                 return flags + RACE_INSTR
             return flags
         for t, fl, flags, srcs in plan:
